@@ -489,6 +489,18 @@ func (e *SpecEnv) callExpr(n *ast.CallExpr) Val {
 				op = ">="
 			}
 			return Val{T: fmt.Sprintf("(ite (%s %s %s) %s %s)", op, a.T, b.T, a.T, b.T), Ty: ty}
+		case "typeIs":
+			// typeIs(x, T{}): the dynamic type of interface value x is T
+			v := e.expr(n.Args[0])
+			var ty types.Type
+			if cl, ok := n.Args[1].(*ast.CompositeLit); ok {
+				ty = e.typeOf(cl.Type)
+			}
+			if ty == nil {
+				e.errf("typeIs: second argument must be T{}")
+				return Val{T: "false", Ty: types.Typ[types.Bool]}
+			}
+			return Val{T: fmt.Sprintf("(and (not (= %s 0)) (= (itype %s) %d))", v.T, v.T, e.u.em.typeTag(ty)), Ty: types.Typ[types.Bool]}
 		case "isnil":
 			return Val{T: fmt.Sprintf("(= %s 0)", e.expr(n.Args[0]).T), Ty: types.Typ[types.Bool]}
 		case "real":
